@@ -211,6 +211,15 @@ def run(prop, tier, seed):
                         for w2_ in WALLETS[wi_ + 1:] + WALLETS[:wi_]:
                             n += 1
                             ops.append(dict(id="o%d" % n, kind=bk, client="c1", wallet=w1_, acct=ACCTS[n % len(ACCTS)], second="%s/%s" % (w2_, ACCTS[(n + 1) % len(ACCTS)]), epoch=10 * n))
+                if kind == "list":
+                    # ONE listing over two wallets (every ordered pair; whole wallets and single equally named accounts): each returned
+                    # account is an "Access account" served for THAT wallet's account - the decision for one wallet's account says
+                    # nothing about the equally named account of the other
+                    for wi_, w1_ in enumerate(WALLETS):
+                        for w2_ in WALLETS[wi_ + 1:] + WALLETS[:wi_]:
+                            n += 1
+                            a_ = ACCTS[n % len(ACCTS)]
+                            ops.append(dict(id="o%d" % n, kind="listpaths", client="c1", wallet="", acct="", paths=[w1_, w2_] if n % 2 else ["%s/%s" % (w1_, a_), "%s/%s" % (w2_, a_)], epoch=10 * n))
                 n += 1
                 ops.append(dict(id="o%d" % n, kind=kind, client="", wallet=tw, acct=tacct if tacct else "", epoch=10 * n))
                 n += 1
@@ -240,6 +249,16 @@ def run(prop, tier, seed):
                     cur = e["sc"]
                     start = len(lines) + 1
                     lines.append(dict(ev="Config", sc=cur, cfg=cfgs[cur], unordered=cur.endswith("-bin")))
+                elif e["ev"] == "PermOp" and e["kind"] == "listpaths":
+                    # one "Access account" per account of the listed wallets (all of the wallet, or the one named): served <=> returned
+                    op_ = [o_ for s_ in scenarios if s_["id"] == cur for o_ in s_["ops"] if o_["id"] == e["id"]][0]
+                    for pth in op_["paths"]:
+                        w_, _, a_ = pth.partition("/")
+                        for acct_ in ([a_] if a_ else ACCTS):
+                            nops += 1
+                            got = ("%s/%s" % (w_, acct_)) in e["listed"]
+                            nserved += got
+                            lines.append(dict(ev="Op", id="%s:%s/%s" % (e["id"], w_, acct_), client=e["client"], wallet=w_, account=acct_, op="Access account", served=got, changed=False))
                 elif e["ev"] == "PermOp":
                     wallet, acct = e["wallet"], e["acct"]
                     if e["keyof"]:
@@ -499,13 +518,20 @@ def project_lists(evs, cfgs, opmeta, popnames, lines):
             lines.append(dict(ev="List", id=e["id"], client=e["client"], paths=m["pids"], result=res, keysok=bool(e["served"]) or not e["listed"]))
 
 
-def project_service(evs, cfgs, lines):
+def project_service(evs, cfgs, lines, scenarios=()):
     """C07 projection of permdrv events to the PermTrace alphabet (for replays; run() has the same loop with counters)."""
     cur = None
     for e in evs:
         if e["ev"] == "Begin":
             cur = e["sc"]
             lines.append(dict(ev="Config", sc=cur, cfg=cfgs[cur], unordered=cur.endswith("-bin")))
+        elif e["ev"] == "PermOp" and e["kind"] == "listpaths":
+            op_ = [o_ for s_ in scenarios if s_["id"] == cur for o_ in s_["ops"] if o_["id"] == e["id"]]
+            for pth in (op_[0]["paths"] if op_ else []):
+                w_, _, a_ = pth.partition("/")
+                for acct_ in ([a_] if a_ else ACCTS):
+                    lines.append(dict(ev="Op", id="%s:%s/%s" % (e["id"], w_, acct_), client=e["client"], wallet=w_, account=acct_, op="Access account",
+                                      served=("%s/%s" % (w_, acct_)) in e["listed"], changed=False))
         elif e["ev"] == "PermOp" and e["kind"] in OPNAME:
             wallet, acct = e["wallet"], e["acct"]
             if e["keyof"]:
@@ -544,7 +570,7 @@ def _replay(prop, path):
             project_lists(evs, {sc["id"]: obj["cfg"]}, {sc["id"]: {o["id"]: o for o in sc["ops"]}}, obj["popnames"], lines)
             module, inv = "ListTrace", ["NoForbidden", "Complete", "OwnKey"]
         else:
-            project_service(evs, {sc["id"]: obj["cfg"]}, lines)
+            project_service(evs, {sc["id"]: obj["cfg"]}, lines, [sc])
             module, inv = "PermTrace", ["ServedOnlyIfAllowed", "RefusedNoChange"]
         for ln in lines[:300]:
             print(json.dumps(ln)[:300])
